@@ -298,6 +298,7 @@ type Env struct {
 	info  *types.Info
 	bound map[types.Object]*Term // quantifier-bound variables
 	isOld bool
+	assuming bool // the expression is being assumed (callee contract at a call site), not proved
 	loopEntry *State // state at loop entry while the invariant is first established
 }
 
@@ -780,6 +781,20 @@ func (env *Env) call(x *ast.CallExpr) Val {
 		nenv := *env
 		nenv.st = le
 		return nenv.eval(x.Args[0])
+	case "sameOrFresh":
+		// sameOrFresh(res, src): res shares src's backing array (same start) or was
+		// freshly allocated by the call. Proved from the allocations the callee made;
+		// assumed by callers with a fresh reference of their own.
+		res := env.eval(x.Args[0]).(*Term)
+		src := env.eval(x.Args[1]).(*Term)
+		same := tb.And(tb.Eq(m.SliceRef(res), m.SliceRef(src)), tb.Eq(m.SliceOff(res), m.SliceOff(src)), tb.Eq(m.SliceCap(res), m.SliceCap(src)))
+		if env.assuming {
+			f := u.freshRef(env.st, "callee_alloc")
+			return tb.Or(same, tb.And(tb.Eq(m.SliceRef(res), f), tb.Eq(m.SliceOff(res), m.IxConst(0))))
+		}
+		// every allocation this function makes is outside Alloc0 (the objects that existed at entry)
+		m.UF("Alloc0", SBool, SInt)
+		return tb.Or(same, tb.And(tb.Not(tb.App("Alloc0", SBool, m.SliceRef(res))), tb.Lt(tb.Int(0), m.SliceRef(res)), tb.Eq(m.SliceOff(res), m.IxConst(0))))
 	case "implies":
 		return tb.Implies(env.eval(x.Args[0]).(*Term), env.eval(x.Args[1]).(*Term))
 	case "iff":
